@@ -269,8 +269,8 @@ def consistent(path, val):
                     return False
                 if rq is None:
                     unknown = True
-        elif ev.kind in ("assign", "havoc") and ev.kind == "assign" and ev.a in val:
-            unknown = True
+        elif ev.kind in ("assign", "let") and ev.a in val:
+            unknown = True      # a sampled name is rebound or assigned: the valuation no longer describes it
     return None if unknown else True
 
 
